@@ -2,9 +2,9 @@
 Driver for stream `mpt` (C10): one op per line, one observation per line. Keys/values are hex
 (`-` = empty). The state is the model's fully expanded trie AND the in-memory representation
 with HashNodes over a node store (Model/Mpt/Lazy*.lean), both driven by every line: put / del /
-batch / get / root are answered from the lazy model (errors included) and cross-checked against the
+batch / get / root / proof are answered from the lazy model (errors included) and cross-checked against the
 expanded one (`MISMATCH…` if they differ, which Props/C10Lazy.lean proves impossible while every
-node can be loaded); find / seek / proof are answered from the expanded trie. `H` is the real double
+node can be loaded); seek is answered by the lazy traversal from `HashNode(root)`, find from the expanded trie. `H` is the real double
 SHA-256, so roots and proofs are compared with the implementation byte for byte. The node store is
 a hash map from node hash to bytes (the model's `LStore` is its lookup function); `drop` removes a
 record, after which only the lazy model is meaningful (the harness sends only put / del / batch /
@@ -30,6 +30,8 @@ import NeoModel.Model.Mpt.Traverse
 import NeoModel.Model.Mpt.Proof
 import NeoModel.Model.Mpt.LazyBatch
 import NeoModel.Model.Mpt.FindExact
+import NeoModel.Model.Mpt.Guards
+import NeoModel.Model.Mpt.LazySeek
 import Std.Data.HashMap
 open NeoModel NeoModel.Mpt
 
@@ -81,7 +83,7 @@ def step (s : DSt) (ws : List String) : DSt × String :=
   | ["put", k, v] =>
     match Hex.decode k, Hex.decode v with
     | some kb, some vb =>
-      if kb.length = 0 ∨ kb.length > maxKeyLength ∨ vb.length > maxValueLength then (s, "err")
+      if putGuard kb.length vb.length then (s, "err")
       else
         let r := lput s.store fuel s.l (toNibbles kb) vb
         ({ s with l := r.1, t := if s.dropped then t else put t (toNibbles kb) vb }, if r.2 then "err" else "ok")
@@ -89,7 +91,7 @@ def step (s : DSt) (ws : List String) : DSt × String :=
   | ["del", k] =>
     match Hex.decode k with
     | some kb =>
-      if kb.length > maxKeyLength then (s, "err")
+      if keyGuard kb.length then (s, "err")
       else
         let r := ldel s.store fuel s.l (toNibbles kb)
         ({ s with l := r.1, t := if s.dropped then t else delete t (toNibbles kb) }, if r.2 then "err" else "ok")
@@ -118,7 +120,7 @@ def step (s : DSt) (ws : List String) : DSt × String :=
   | ["get", k] =>
     match Hex.decode k with
     | some kb =>
-      if kb.length > maxKeyLength then (s, "err")
+      if keyGuard kb.length then (s, "err")
       else
         match lget s.store fuel s.l (toNibbles kb) with
         | some x =>
@@ -131,7 +133,7 @@ def step (s : DSt) (ws : List String) : DSt × String :=
   | ["find", p, f, m] =>
     match Hex.decode p, (if f == "nil" then some none else (Hex.decode f).map some), m.toNat? with
     | some pb, some fo, some mx =>
-      if pb.length > maxKeyLength ∨ (fo.getD []).length > maxKeyLength - pb.length then (s, "err")
+      if findGuard pb.length (fo.getD []).length then (s, "err")
       else
         match findX t (toNibbles pb) (fo.map toNibbles) mx with
         | some l => (s, "find " ++ showKVs pb l)
@@ -139,21 +141,29 @@ def step (s : DSt) (ws : List String) : DSt × String :=
     | _, _, _ => (s, "bad-op")
   | ["seek", p, st, b] =>
     match Hex.decode p, Hex.decode st with
-    | some pb, some sb => (s, "seek " ++ showKVs pb (seek t (toNibbles pb) (toNibbles sb) (b == "1")))
+    | some pb, some sb =>
+      -- a TrieStore is `HashNode(StateRoot())` over the store (trie_store.go:26-35): answered by the lazy
+      -- traversal from that single HashNode, cross-checked against `seek` on the expanded trie
+      match lseek s.store fuel (lreopen H s.l) (toNibbles pb) (toNibbles sb) (b == "1") with
+      | some r =>
+        if !s.dropped && decide (r ≠ seek t (toNibbles pb) (toNibbles sb) (b == "1")) then (s, "MISMATCH-seek")
+        else (s, "seek " ++ showKVs pb r)
+      | none => (s, "panic")
     | _, _ => (s, "bad-op")
   | ["proof", k] =>
     match Hex.decode k with
     | some kb =>
-      if kb.length > maxKeyLength then (s, "err")
+      if keyGuard kb.length then (s, "err")
       else
-        match getProof H t (toNibbles kb) with
-        | some ps =>
-          -- GetProof loads the HashNodes on the path like Get does (proof.go:22-25 `t.root = r`)
-          let l' := match lget s.store fuel s.l (toNibbles kb) with
-            | some x => x.1
-            | none => s.l
-          ({ s with l := l' }, "proof " ++ hexList ps)
-        | none => (s, "err")
+        -- answered by the lazy model (GetProof loads the HashNodes on the path and keeps them,
+        -- proof.go:22-25 `t.root = r`), cross-checked against the expanded trie
+        match lgetProof H s.store fuel s.l (toNibbles kb) with
+        | some x =>
+          if !s.dropped && getProof H t (toNibbles kb) != some x.2 then (s, "MISMATCH-proof")
+          else ({ s with l := x.1 }, "proof " ++ hexList x.2)
+        | none =>
+          if !s.dropped && (getProof H t (toNibbles kb)).isSome then (s, "MISMATCH-proof")
+          else (s, "err")
     | none => (s, "bad-op")
   | ["verify", r, k, ps] =>
     match Hex.decode r, Hex.decode k, parseHexList ps with
